@@ -14,7 +14,8 @@ def serverInOf (i : Gen.StoreoptsIn) : ServerIn :=
     skipVerifyWrite := i.flagB "skip-verify-write", skipVerifyRead := i.flagB "skip-verify-read",
     uncompressed := i.flagB "uncompressed", mutualTLS := i.flagB "mutual-tls", key := i.flagS "key" }
 
-/-- a wire is proved equal to the model by unfolding both and splitting on the conditions -/
+/-- a wire is proved equal to the model by unfolding both; `grind` splits on the conditions and knows that `||` and
+    `&&` commute (the extractor sorts the operands) -/
 macro "wire" : tactic =>
   `(tactic| first
     | rfl
@@ -22,7 +23,8 @@ macro "wire" : tactic =>
          Gen.storeoptsCSWritable, Gen.storeoptsISWritable, Gen.storeoptsCSSkipVerifyWrite, Gen.storeoptsCSConverters,
          Gen.storeoptsCSClientAuth, Gen.storeoptsISClientAuth, Gen.storeoptsCSUsesTLS, Gen.storeoptsISUsesTLS,
          Gen.storeoptsCSUpOptSkipVerify, Gen.storeoptsISUpOptSkipVerify, Gen.storeoptsCSUpOptUncompressed] <;>
-       (repeat' split) <;> simp_all))
+       first | done | grind)
+    | grind)
 
 /-- **chunk-server**: authorization = flag, else `DESYNC_HTTP_AUTH`; writable = `--writeable`; write verification =
     `--skip-verify-write`; the converters are a compressor unless `--uncompressed`; the handler is what is served -/
